@@ -56,6 +56,8 @@ def sources(tier, seed, ctx):
             if tier == 'quick' and n >= 4 and num % 3:
                 continue
             srcs.append({'fn': 'eq', 'n': n, 'num': num, 'gen': num % 2 == 0, 'host': _h(rng, 0.4) if num % 2 else None})
+            if n >= 2 and num < 2 ** n:
+                srcs.append({'fn': 'eq', 'n': n, 'num': num, 'gen': False, 'host': None, 'rep': True})
     for il in range(1, (4 if tier == 'quick' else 5) + 1):
         for ol in range(1, (6 if tier == 'quick' else 7) + 1):
             for big in (False, True):
@@ -190,6 +192,14 @@ def record(src):
                 c = ar.generate_equal(n, num)
                 pre = _fresh_pre(c)
                 a, out, om = list(c.inputs), c.outputs[0], 'set'
+            elif src.get('rep'):
+                # the same gate at several bit positions (a legal operand list): fewer inputs than positions
+                from cirbo.core.circuit import Circuit
+
+                c = Circuit.bare_circuit(max(1, n - 1), prefix='r')
+                pre = project(c)
+                a = [c.inputs[(j * 2) % len(c.inputs)] for j in range(n)]
+                out, om = ar.add_equal(c, list(a), num), 'same'
             else:
                 c, ops = A.make_host(src, n)
                 pre = project(c)
